@@ -350,3 +350,36 @@ Lemma verlet_harmonic_shadow m k dt x v : m <> 0 ->
 Proof.
   intros Hm F. cbn. unfold shadow. field. exact Hm.
 Qed.
+
+(* ---- 0 < a whenever the masses are positive and the direction is not the zero vector ---- *)
+Lemma qa_pos_raw : forall (m d : list R), length d = length m -> Forall (fun mi => 0 < mi) m ->
+  0 < vdot ROps d d -> 0 < a_ m d.
+Proof.
+  unfold qa, vdot, vmul. cbn [o1 odiv omul ROps].
+  induction m as [|mi m IH]; intros [|di d] Hl Hm Hd; cbn [length] in Hl; try discriminate; cbn in Hd |- *; [lra|].
+  inversion Hm as [|? ? Hmi Hm']; subst.
+  assert (0 <= 1 / mi * di * di) as H1.
+  { replace (1 / mi * di * di) with (di * di / mi) by (field; lra). apply Rmult_le_pos; [nra | left; apply Rinv_0_lt_compat; exact Hmi]. }
+  pose proof (qa_nonneg m d Hm') as H2. unfold qa in H2. cbn [o1 odiv omul ROps] in H2.
+  destruct (Req_dec di 0) as [->|Hne].
+  - assert (0 < vsum ROps (vmap2 Rmult d d)) as Hd' by lra.
+    specialize (IH d ltac:(lia) Hm' Hd'). cbn in IH. lra.
+  - assert (0 < 1 / mi * di * di).
+    { replace (1 / mi * di * di) with (di * di / mi) by (field; lra). apply Rdiv_lt_0_compat; [nra | exact Hmi]. }
+    cbn in H2. lra.
+Qed.
+
+Lemma qa_scale (m d : list R) c : c <> 0 -> a_ m (map (fun x => x / c) d) = a_ m d / (c * c).
+Proof.
+  intros Hc. unfold qa. cbn [o1 odiv omul ROps]. revert d.
+  induction m as [|mi m IH]; intros [|di d]; cbn; try (field; exact Hc).
+  cbn in IH. rewrite IH. generalize (1 / mi). intros k. field. exact Hc.
+Qed.
+
+Lemma qa_pos m dir : length dir = length m -> Forall (fun mi => 0 < mi) m -> 0 < vdot ROps dir dir ->
+  0 < a_ m (unit_dir ROps dir).
+Proof.
+  intros Hl Hm Hd. unfold unit_dir, vnorm. cbn [odiv osqrt ROps].
+  assert (0 < sqrt (vdot ROps dir dir)) as Hs by (apply sqrt_lt_R0; exact Hd).
+  rewrite qa_scale by lra. apply Rdiv_lt_0_compat; [apply qa_pos_raw; assumption | nra].
+Qed.
